@@ -35,12 +35,13 @@ RAISING_B = RAWS[-6:]
 
 
 def constructs(c):
-    """nine programs; c is the condition node (re-evaluated in each)"""
+    """eleven programs; c is the condition node (re-evaluated in each)"""
     return [
         ("ifelse", [If(c, Say(Int(1)), Say(Int(2)))]),
         ("ifelsenil", [Say(Arr(If(c, Say(Nil()), Say(Int(2)))))]),      # a then-branch whose value is nil is still the branch taken
         ("if", [Say(Arr(If(c, Say(Int(1)))))]),
         ("not", [Say(Pre("!", c))]),
+        ("notnot", [Say(Pre("!", Pre("!", c)))]),          # two negations: the truth value itself, as a bool
         ("and", [Say(Arr(Inf("&&", c, Say(Int(5)))))]),
         ("or", [Say(Arr(Inf("||", c, Say(Int(6)))))]),
         ("ret", [Asg("f", Fn([], [Jump("return", Int(1), c), Int(2)])), Say(Call(Id("f")))]),
@@ -63,6 +64,8 @@ def decide(name, ev, end):
         return {("1", "[1]"): "T", ("[nil]",): "F"}.get(tuple(outs), "X")
     if name == "not":
         return {("false",): "T", ("true",): "F"}.get(tuple(outs), "X")
+    if name == "notnot":
+        return {("true",): "T", ("false",): "F"}.get(tuple(outs), "X")
     if name == "and":      # true: right operand evaluated once and returned; false: left returned, right not evaluated
         if outs[:1] == ["5"] and len(outs) == 2 and outs[1] == "[5]":
             return "T"
@@ -141,6 +144,22 @@ def run():
                       f"condition value {v['id']} (its B yields {'true' if row['b'] == 'T' else 'not true'}): constructs {sorted(v['bad'])} decide differently: {dict(zip(names, row['obs']))}",
                       {"value": v["id"], "B_is_true": row["b"], "decisions": dict(zip(names, row["obs"]))})
     ck.sample({"value": rows[0]["id"], "B": rows[0]["b"], "decisions": dict(zip(names, rows[0]["obs"]))})
+    # chains of three and four operands: every operand is tested in turn by the same rule; the first that decides is returned, the rest is
+    # not evaluated; an operand that RAISES ends the expression with its error (it is not a condition value)
+    ERRZ = "[nil, <err ZeroDivisionErr: cannot be divided by 0>]"
+    chains = [("say(1) && say(2) && say(3)", ["1", "2", "3", "[3, nil]"]), ("say(1) && say(nil) && say(3)", ["1", "nil", "[nil, nil]"]), ("say(0) && say(2) && say(3)", ["0", "[0, nil]"]),
+              ("say(nil) || say(0) || say(3)", ["nil", "0", "3", "[3, nil]"]), ("say(nil) || say(2) || say(3)", ["nil", "2", "[2, nil]"]),
+              ("say(1) && say(1 / 0) && say(3)", ["1", ERRZ]), ("say(1) && say(2) && say(1 / 0) && say(4)", ["1", "2", ERRZ]), ("say(nil) || say(1 / 0) || say(3)", ["nil", ERRZ]),
+              ("say(nil) || say(0) || say(1 / 0) || say(4)", ["nil", "0", ERRZ]), ("say(1) && (say(2) && say(1 / 0)) && say(4)", ["1", "2", ERRZ]), ("say(1) && say(nil) && say(1 / 0)", ["1", "nil", "[nil, nil]"]),
+              ("say(1) && say(2) || say(1 / 0)", ["1", "2", "[2, nil]"]), ("say(nil) && say(2) || say(1 / 0) || say(5)", ["nil", ERRZ]),
+              ("'yes if (say(1) && say(1 / 0) && say(3)) else 'no", ["1", ERRZ]), ("{|| return 'taken if say(1) && say(1 / 0) && say(3); 'fell}()", ["1", ERRZ])]
+    cout = run_cases([{"id": f"h{k}", "src": f"say(nil.try.{{|u| {src_}}}.A)"} for k, (src_, _) in enumerate(chains)], label="C12 chains of three and four operands")
+    for k, (src_, want) in enumerate(chains):
+        o = cout[f"h{k}"]
+        got = [e[4:] for e in o["events"] if e.startswith("out:")]
+        if got != want and not o["end"].startswith(("discarded:", "fuel:")):
+            ck.reject("C12:chain:" + ("raising-operand" if "1 / 0" in src_ else "deciding-operand"), f"{src_!r}: evaluated {got}, expected {want}", {"src": src_, "observed": got, "expected": want})
+    ck.cov["operand_chain_programs"] = len(chains)
     ck.cov["evaluations"] = len(tagged) + len(breq)
     ck.cov["distinct_nontrivial"] = len(rows)
     ck.cov["traces_validated_against_impl"] = st["ok"] + st["mismatch"] + len(rows)
